@@ -3,6 +3,7 @@ let props : (string * (module Frame.PROP)) list = [
   ("C10", (module C10));
   ("C11", (module C11));
   ("C13", (module C13));
+  ("C14", (module C14));
   ("C15", (module C15));
   ("C18", (module C18));
   ("C20", (module C20));
